@@ -40,6 +40,7 @@ pub fn repo_op() -> impl Strategy<Value = Op> {
         2 => any::<u16>().prop_map(Op::Rewrite),
         2 => any::<u16>().prop_map(Op::EditOldMtime),
         2 => any::<u16>().prop_map(Op::MakeEmpty),
+        2 => (any::<u16>(), any::<u16>(), any::<u16>()).prop_map(|(a, b, c)| Op::CopyContent(a, b, c)),
         1 => any::<u16>().prop_map(Op::BulkSmall),
     ]
 }
@@ -210,6 +211,7 @@ pub fn check(case: &Case, w: usize) -> CheckResult {
         .class_if(h.tail_edit, "tail-edit")
         .class_if(h.old_mtime, "edit-with-old-mtime")
         .class_if(h.empty_file, "empty-file")
+        .class_if(h.copied, "content-copied-to-another-path")
         .class_if(h.work.len() > 100, "changes>100")
         .class_if(h.commits.len() > 2, "commits>=2")
         .class_if(!case.ignore_out, "out-dir-not-ignored")
